@@ -186,7 +186,7 @@ async def check_ahb(ctx, case):
 
             r = ctx.case_rng(case).random()
             use_tree = r < 0.5
-            unresolved = r < 0.2 and "P" not in s and "UB" not in s.upper().replace("MUSS", "")
+            unresolved = r < 0.2 and "P" not in s
 
             async def go2():
                 if unresolved:
@@ -217,6 +217,42 @@ async def check_ahb(ctx, case):
             ctx.violation("is-valid-disagrees", f"is_valid_expression({s!r}) = {res!r}; the expression is structurally {'invalid' if invalid else 'valid'} -> expected {'(False, reason)' if invalid else '(True, None)'}")
         if not rcs and not fcs:
             ctx.count("is_valid_without_evaluatable_keys")
+
+
+TIME_CONDITION_CASES = [
+    # (expression, structurally invalid?)  [UB1] -> [932], [UB2] -> [934] (format constraints), [UB3] -> ([932][492]X[934][493])
+    ("Muss [UB1] O [501]", True), ("Muss [501] X [UB2]", True), ("Muss [UB3] O [501]", True), ("Muss [1] O [UB1]", True), ("Kann [2] U ([501] O [UB2])", True),
+    ("Muss [UB1] U [1]", False), ("Muss [1][UB1]", False), ("Soll [UB3] U [2]", False), ("Muss [1] O [2] Kann [3][UB2]", False), ("X [UB3]", False), ("Muss [UB1]", False),
+]
+
+
+async def check_time_conditions(ctx, case):
+    """the validity check on expressions written with time conditions - as string and as the (unresolved) tree of the AHB parser"""
+    s, invalid, as_tree = case["s"], case["invalid"], case["as_tree"]
+    ctx.set_case("time-conditions", case)
+    install_cer_evaluators()
+    try:
+        ctx.evaluation()
+        ctx.count("is_valid_expression_calls_with_time_conditions")
+
+        async def go():
+            if as_tree:
+                return await is_valid_expression(parse_ahb_expression_to_single_requirement_indicator_expressions(s), _cer_var.set)
+            return await is_valid_expression(s, _cer_var.set)
+
+        out = await sched.run_under(None, go)
+    finally:
+        E.install()
+    how = "the tree of the AHB expression parser for " if as_tree else ""
+    if out[0] != "ok":
+        ctx.violation(f"is-valid-raises-{type(out[1]).__name__}", f"is_valid_expression({how}{s!r}) {describe(out)[:300]}")
+        return
+    res = out[1]
+    ok = (isinstance(res, tuple) and len(res) == 2 and res[0] is False and isinstance(res[1], str) and bool(res[1])) if invalid else res == (True, None)
+    if not ok:
+        ctx.violation("is-valid-disagrees", f"is_valid_expression({how}{s!r}) = {res!r}; with its time conditions written out the expression is structurally {'invalid' if invalid else 'valid'} -> expected {'(False, reason)' if invalid else '(True, None)'}")
+        return
+    ctx.nontrivial(["time-conditions", s, as_tree])
 
 
 def gen_ahb_case(rng, max_keys):
@@ -268,6 +304,10 @@ async def run(ctx):
                 check_direct(ctx, {"ast": ast, "s": G.render(ast, rng, G.Style(p_redundant=0.0, flat_runs=0.0, spell=0, ws=""))})
                 ctx.count("small_scope_expressions")
     ctx.note("small_scope", "every expression of the evaluation domain (valid and invalid) with up to %d leaves over 2 requirement keys, 1 hint, 2 format constraints, under all 3^k assignments" % (3 if ctx.quick else 4))
+    if ctx.shard == 0:
+        for s, invalid in TIME_CONDITION_CASES:
+            for as_tree in (False, True):
+                await check_time_conditions(ctx, {"s": s, "invalid": invalid, "as_tree": as_tree})
     for i in range(ctx.budget(200, 16_000)):
         case = gen_ahb_case(rng, max_keys=5)
         await check_ahb(ctx, case)
@@ -277,7 +317,9 @@ async def run(ctx):
 
 async def replay(ctx, phase, case):
     E.install()
-    if phase == "direct":
+    if phase == "time-conditions":
+        await check_time_conditions(ctx, case)
+    elif phase == "direct":
         check_direct(ctx, case)
     else:
         await check_ahb(ctx, case)
